@@ -837,10 +837,17 @@ static void genOps(Case& c, int t, int mode, const LP& lp)
          c.recs.push_back(op("basis").add(R(0, 1)));
          break;
       case 17:
-         // copy construction + solve of the copy, optionally assignment back (the copy/assignment defects this
-         // operation found - uninitialised members, pointers into the source - are fixed: replays/C18/tsan__copy-*,
-         // tsan__assign-*)
-         c.recs.push_back(op("clone").add(R(0, 1)));
+         // copy construction + solve of the copy, optionally assignment back. Earlier copy/assignment defects found by
+         // this operation are fixed (replays/C18/tsan__copy-*, tsan__assign-*).
+         // known finding copy-slufactor-overread: SLUFactor::assign (reached from SoPlexBase copy construction /
+         // assignment after a solve) memcpy's the row-wise L arrays with the current dimension although the source's
+         // arrays stem from an earlier, smaller factorization (heap over-read). Exclude exactly the copy operation.
+         if(knownKey("copy-slufactor-overread"))
+         {
+            ev().count("excluded_known.copy-slufactor-overread");
+            c.recs.push_back(op("query"));
+         }
+         else c.recs.push_back(op("clone").add(R(0, 1)));
          break;
       case 18:
          c.recs.push_back(op("timer").add(R(0, 2)));
